@@ -128,6 +128,23 @@ def check_prims(ctx, rep):
         for a in range(-2, 7):
             for b in range(-3, 7):
                 cmp("range(a, b, -1)", (a, b), model.call("prim_seq", [15, [], [a], [b]]), list(range(a, b, -1)))
+    if "gen_read_utf16" in vlib.fn_table():      # stage 5 of the third wave present
+        units = [0x41, 0x5C, 0x2F, 0xE9, 0x4E2D, 0xD7FF, 0xD800, 0xDBFF, 0xDC00, 0xDFFF, 0xE000, 0xFFFF, 0]
+        for _ in range(400):
+            us = [rng.choice(units) for _ in range(rng.randrange(0, 5))]
+            bs = [b for u in us for b in (u & 255, u >> 8)] + ([rng.randrange(256)] if rng.random() < 0.15 else [])
+            cmp("bytes.decode('utf-16LE')", bs, _res(model.call("prim_str", [5, bs, []])),
+                _py(lambda: [ord(c) for c in bytes(bs).decode("utf-16LE")]))
+            cps = [rng.choice(units + [0x10000, 0x10FFFF, 0x1F600]) for _ in range(rng.randrange(0, 5))]
+            cmp("str.encode('utf-16LE')", cps, _res(model.call("prim_str", [6, cps, []])),
+                _py(lambda: list("".join(chr(c) for c in cps).encode("utf-16LE"))))
+            cmp("str.replace('\\\\', '/')", cps, model.call("prim_str", [7, cps, []]),
+                [ord(c) for c in "".join(chr(c) for c in cps).replace("\\", "/")])
+        from py7zr.helpers import ArchiveTimestamp
+        for v in (0, 1, 5, 1 << 63, (1 << 64) - 1, -3):
+            cmp("ArchiveTimestamp(v) is the int v", v, [int(ArchiveTimestamp(v)), ArchiveTimestamp(v) == v, isinstance(ArchiveTimestamp(v), int),
+                                                      "__new__" in vars(ArchiveTimestamp), "__init__" in vars(ArchiveTimestamp)],
+                [v, True, True, False, False])
     for ln in (0, 3, 4, 5, 7, 8, 9):
         l = [rng.randrange(256) for _ in range(ln)]
         cmp("unpack('<L')", l, _res(model.call("prim_seq", [5, l, [], []])), _py(lambda: struct.unpack("<L", bytes(l))[0]))
